@@ -606,51 +606,70 @@ func (x *runner) opRemove(which string, tbs []byte, canon bool) ([]byte, error) 
 		x.out.Fail("rm "+which+" "+h(tbs), "panic: "+p)
 		err = fmt.Errorf("panic")
 	}
-	a := res(b, err, p)
-	if !canon {
-		a = "noncanon"
-	}
-	x.out.T("rm "+which+" "+h(tbs), a)
+	_ = canon // the answer is the real one for every input; the model covers everything the fork accepts
+	x.out.T("rm "+which+" "+h(tbs), res(b, err, p))
 	return b, err
 }
 
-type preDesc struct {
-	cert *x509.Certificate
-}
+var oidEKU = []byte{0x55, 0x1d, 0x25}
 
-func preTokens(pi *x509.Certificate) string {
-	if pi == nil {
+// chain1Tokens describes chain[1] for the model, read with the splicer from the certificate's own bytes (not from the repository's
+// parse): `c1 <RawIssuer> <none | v:first AKI extension value> <n> <KeyPurposeId contents>…`. Whether that makes it a pre-issuer
+// is for the model to decide.
+func chain1Tokens(c *x509.Certificate) string {
+	if c == nil {
+		return "nil"
+	}
+	p, ok := splitTBS(c.RawTBSCertificate)
+	if !ok {
 		return "nil"
 	}
 	aki := "none"
-	for _, e := range pi.Extensions {
-		if e.Id.Equal(x509.OIDExtensionAuthorityKeyId) {
-			aki = "v:" + h(e.Value)
-			break
+	if k := findExt(p.exts, oidAKI); k >= 0 {
+		aki = "v:" + h(extValue(p.exts[k]))
+	}
+	var ekus [][]byte
+	if k := findExt(p.exts, oidEKU); k >= 0 {
+		_, seq, _, _, _ := readTLV(extValue(p.exts[k]))
+		ids, _ := splitAll(seq)
+		for _, id := range ids {
+			_, o, _, _, _ := readTLV(id)
+			ekus = append(ekus, o)
 		}
 	}
-	return fmt.Sprintf("pre %s %s %s", h(pi.RawIssuer), aki, verifkit.B(ct.IsPreIssuer(pi)))
+	s := fmt.Sprintf("c1 %s %s %d", h(p.field(fIssuer)), aki, len(ekus))
+	for _, e := range ekus {
+		s += " " + h(e)
+	}
+	return s
+}
+
+func spkiTokens(chain []*x509.Certificate) string {
+	s := ""
+	for i, c := range chain {
+		if i > 0 {
+			s += " " + h(c.RawSubjectPublicKeyInfo)
+		}
+	}
+	return s
 }
 
 func (x *runner) opBuild(tbs []byte, pi *x509.Certificate, canon bool) ([]byte, error) {
 	var b []byte
 	var err error
 	p := verifkit.Guard(func() { b, err = x509.BuildPrecertTBS(tbs, pi) })
-	op := "build " + h(tbs) + " " + preTokens(pi)
+	op := "build " + h(tbs) + " " + chain1Tokens(pi)
 	if p != "" {
 		x.out.Fail(op, "panic: "+p)
 		err = fmt.Errorf("panic")
 	}
-	a := res(b, err, p)
-	if !canon {
-		a = "noncanon"
-	}
-	x.out.T(op, a)
+	_ = canon
+	x.out.T(op, res(b, err, p))
 	return b, err
 }
 
-// leafAnswer renders a MerkleTreeLeaf as "ok <tbs> <index of the chain certificate whose key was hashed>".
-func leafAnswer(leaf *ct.MerkleTreeLeaf, err error, p string, chain []*x509.Certificate) string {
+// leafAnswer renders a MerkleTreeLeaf as "ok <tbs> <issuer_key_hash>".
+func leafAnswer(leaf *ct.MerkleTreeLeaf, err error, p string) string {
 	if p != "" {
 		return "panic"
 	}
@@ -658,14 +677,7 @@ func leafAnswer(leaf *ct.MerkleTreeLeaf, err error, p string, chain []*x509.Cert
 		return "err"
 	}
 	pe := leaf.TimestampedEntry.PrecertEntry
-	idx := -1
-	for i, c := range chain {
-		if i > 0 && sha256.Sum256(c.RawSubjectPublicKeyInfo) == pe.IssuerKeyHash {
-			idx = i
-			break
-		}
-	}
-	return fmt.Sprintf("ok %s %d", h(pe.TBSCertificate), idx)
+	return fmt.Sprintf("ok %s %s", h(pe.TBSCertificate), h(pe.IssuerKeyHash[:]))
 }
 
 func (x *runner) chainOf(tbs []byte, key crypto.Signer, rest ...*x509.Certificate) []*x509.Certificate {
@@ -685,19 +697,16 @@ func (x *runner) opLeafPre(tbs []byte, chain []*x509.Certificate, canon bool) *c
 	var leaf *ct.MerkleTreeLeaf
 	var err error
 	p := verifkit.Guard(func() { leaf, err = ct.MerkleTreeLeafFromChain(chain, ct.PrecertLogEntryType, 1234) })
-	var pi *x509.Certificate
-	if len(chain) > 1 && ct.IsPreIssuer(chain[1]) {
-		pi = chain[1]
+	var c1 *x509.Certificate
+	if len(chain) > 1 {
+		c1 = chain[1]
 	}
-	op := fmt.Sprintf("leafpre %s %d %s", h(tbs), len(chain), preTokens(pi))
+	op := fmt.Sprintf("leafpre %s %d%s %s", h(tbs), len(chain), spkiTokens(chain), chain1Tokens(c1))
 	if p != "" {
 		x.out.Fail(op, "panic: "+p)
 	}
-	a := leafAnswer(leaf, err, p, chain)
-	if !canon {
-		a = "noncanon"
-	}
-	x.out.T(op, a)
+	_ = canon
+	x.out.T(op, leafAnswer(leaf, err, p))
 	if err != nil {
 		return nil
 	}
@@ -708,15 +717,12 @@ func (x *runner) opLeafEmb(tbs []byte, chain []*x509.Certificate, canon bool) *c
 	var leaf *ct.MerkleTreeLeaf
 	var err error
 	p := verifkit.Guard(func() { leaf, err = ct.MerkleTreeLeafForEmbeddedSCT(chain, 1234) })
-	op := fmt.Sprintf("leafemb %s %d", h(tbs), len(chain))
+	op := fmt.Sprintf("leafemb %s %d%s", h(tbs), len(chain), spkiTokens(chain))
 	if p != "" {
 		x.out.Fail(op, "panic: "+p)
 	}
-	a := leafAnswer(leaf, err, p, chain)
-	if !canon {
-		a = "noncanon"
-	}
-	x.out.T(op, a)
+	_ = canon
+	x.out.T(op, leafAnswer(leaf, err, p))
 	if err != nil {
 		return nil
 	}
